@@ -221,6 +221,8 @@ def main():
     o.append("Definition errno_ECONNRESET : N := %d." % errno.ECONNRESET)
     o.append("Definition errno_ENOTCONN : N := %d." % errno.ENOTCONN)
     o.append("Definition ssl_ERROR_EOF : N := %d." % int(ssl.SSL_ERROR_EOF))
+    o.append("(* Worker.__init__: max_requests = cfg.max_requests + jitter, or sys.maxsize when cfg.max_requests is 0 *)")
+    o.append("Definition sys_maxsize : N := %d." % sys.maxsize)
     print("\n".join(o))
 
 
